@@ -178,7 +178,14 @@ fn main() {
             h.update([0u8]);
             h.update(argv[0].as_bytes());
             let key = format!("{:x}", h.finalize());
-            if let Ok(text) = std::fs::read_to_string(format!("{}/{}", sdir, key)) {
+            // per-invocation scripts: `<key>.count` counts the invocations of this (cwd, argv0);
+            // the n-th invocation plays `<key>.<n>` when it exists, otherwise `<key>`
+            let count_path = format!("{}/{}.count", sdir, key);
+            let n: u32 = std::fs::read_to_string(&count_path).ok().and_then(|t| t.trim().parse().ok()).unwrap_or(0) + 1;
+            let _ = std::fs::write(&count_path, n.to_string());
+            let nth = format!("{}/{}.{}", sdir, key, n);
+            let script_path = if std::path::Path::new(&nth).exists() { nth } else { format!("{}/{}", sdir, key) };
+            if let Ok(text) = std::fs::read_to_string(script_path) {
                 for line in text.lines() {
                     if let Some(c) = step(line, &mut st) {
                         code = c;
